@@ -163,7 +163,11 @@ fn open_flags(k: u64) -> (OpenFlags, i32) {
         0 => (OpenFlags::O_RDONLY, libc::O_RDONLY),
         1 => (OpenFlags::O_WRONLY | OpenFlags::O_CREAT, libc::O_WRONLY | libc::O_CREAT),
         2 => (OpenFlags::O_RDWR | OpenFlags::O_CREAT | OpenFlags::O_EXCL, libc::O_RDWR | libc::O_CREAT | libc::O_EXCL),
-        _ => (OpenFlags::O_RDWR | OpenFlags::O_TRUNC, libc::O_RDWR | libc::O_TRUNC),
+        3 => (OpenFlags::O_RDWR | OpenFlags::O_TRUNC, libc::O_RDWR | libc::O_TRUNC),
+        // the other flag class for which the kernel consults `mode`: an unnamed file in the directory `path`
+        4 => (OpenFlags::O_TMPFILE | OpenFlags::O_RDWR, libc::O_TMPFILE | libc::O_RDWR),
+        5 => (OpenFlags::O_DIRECTORY | OpenFlags::O_RDONLY, libc::O_DIRECTORY | libc::O_RDONLY),
+        _ => (OpenFlags::O_NOFOLLOW | OpenFlags::O_RDONLY, libc::O_NOFOLLOW | libc::O_RDONLY),
     }
 }
 const WDATA: [&[u8]; 2] = [b"ab", b"The quick brown fox jumps over the lazy dog."];
@@ -288,8 +292,14 @@ fn build(op: &Value, w: &World, u: u64, link: bool, keep: &mut Keep) -> Built {
                 IoUringSubmissionQueueEntry::new_socket(dom, SocketOptions::new(ty, SocketFlags::SOCK_CLOEXEC), g("proto") as u32, u, fl)
             }
             "timeout" => {
-                keep.ts.push(Box::new(TimeSpec::new(0, 1_000_000)));
-                IoUringSubmissionQueueEntry::new_timeout(keep.ts.last().unwrap(), true, None, u, fl)
+                if g("abs") == 1 {
+                    // absolute: 10 s after boot on CLOCK_MONOTONIC, long past -> fires at once; taken as relative it fires after 10 s
+                    keep.ts.push(Box::new(TimeSpec::new(10, 0)));
+                    IoUringSubmissionQueueEntry::new_timeout(keep.ts.last().unwrap(), false, None, u, fl)
+                } else {
+                    keep.ts.push(Box::new(TimeSpec::new(0, 1_000_000)));
+                    IoUringSubmissionQueueEntry::new_timeout(keep.ts.last().unwrap(), true, None, u, fl)
+                }
             }
             "poll" => {
                 let ev = if g("ev") == 0 { PollEvents::POLLIN } else { PollEvents::POLLOUT };
@@ -299,6 +309,15 @@ fn build(op: &Value, w: &World, u: u64, link: bool, keep: &mut Keep) -> Built {
         }
     };
     Built { sqe, buf_ix, stx_ix }
+}
+
+/// attributes of the object a descriptor was opened on (type and permission bits, size, link count)
+fn fd_facts(fd: i32) -> Value {
+    let mut st: libc::stat = unsafe { std::mem::zeroed() };
+    if unsafe { libc::fstat(fd, &mut st) } != 0 {
+        return json!({"fstat": -errno()});
+    }
+    json!({"mode": st.st_mode, "size": st.st_size, "nlink": st.st_nlink, "accmode": unsafe { libc::fcntl(fd, libc::F_GETFL) } & (libc::O_ACCMODE | libc::O_APPEND | libc::O_DIRECTORY | libc::O_NOFOLLOW)})
 }
 
 /// what kind of socket a descriptor is (and whether it is close-on-exec / non-blocking)
@@ -329,7 +348,8 @@ fn direct(op: &Value, w: &World) -> (i64, Value) {
         match kind {
             "openat" => {
                 let (_, of) = open_flags(g("fl"));
-                (ret(i64::from(libc::openat(dfd, cstr(NAMES[g("name") as usize]).as_ptr(), of, mode("mode", 0o644)))), Value::Null)
+                let r = ret(i64::from(libc::openat(dfd, cstr(NAMES[g("name") as usize]).as_ptr(), of, mode("mode", 0o644))));
+                (r, if r >= 0 { fd_facts(r as i32) } else { Value::Null })
             }
             "close" => (ret(i64::from(libc::close(w.fd(g("h") as usize)))), Value::Null),
             "readv" => {
@@ -374,8 +394,16 @@ fn direct(op: &Value, w: &World) -> (i64, Value) {
                 (r, if r >= 0 { sock_facts(r as i32) } else { Value::Null })
             }
             "timeout" => {
-                let ts = libc::timespec { tv_sec: 0, tv_nsec: 1_000_000 };
-                (ret(i64::from(libc::nanosleep(&ts, std::ptr::null_mut()))), Value::Null)
+                let t0 = std::time::Instant::now();
+                let r = if g("abs") == 1 {
+                    let ts = libc::timespec { tv_sec: 10, tv_nsec: 0 };
+                    let e = libc::clock_nanosleep(libc::CLOCK_MONOTONIC, libc::TIMER_ABSTIME, &ts, std::ptr::null_mut());
+                    if e == 0 { 0 } else { -i64::from(e) }
+                } else {
+                    let ts = libc::timespec { tv_sec: 0, tv_nsec: 1_000_000 };
+                    ret(i64::from(libc::nanosleep(&ts, std::ptr::null_mut())))
+                };
+                (r, json!({"fast": t0.elapsed().as_millis() < 2000}))
             }
             "poll" => {
                 let mut p = libc::pollfd { fd: w.fd(g("h") as usize), events: if g("ev") == 0 { libc::POLLIN } else { libc::POLLOUT }, revents: 0 };
@@ -409,6 +437,7 @@ fn run(batches: &str, root: &str, entries: u32, flagbits: u32, out: &mut Out) {
     std::fs::create_dir_all(format!("{root}/C")).unwrap();
     std::fs::write(format!("{root}/C/cw"), b"cwd file").unwrap();
     std::env::set_current_dir(format!("{root}/C")).unwrap();
+    unsafe { libc::umask(0o027) }; // creation modes are observable through the mask: 0644 -> 0640, 0755 -> 0750, 0600 stays
     let mut a = World::open(root, "A");
     let mut b = World::open(root, "B");
     a.reset();
@@ -499,6 +528,8 @@ fn run(batches: &str, root: &str, entries: u32, flagbits: u32, out: &mut Out) {
         }
         // reap until every submission has completed (or 2 s passed), then look once more for extras
         let mut cqes = Vec::new();
+        let submitted_at = std::time::Instant::now();
+        let mut arrival: std::collections::HashMap<u64, u128> = std::collections::HashMap::new();
         // completions of operations the kernel hands to its worker threads can take long on a loaded machine;
         // a ring that lost completions several batches in a row is not waited for any more
         let deadline = std::time::Instant::now() + std::time::Duration::from_millis(if lost_in_a_row >= 2 { 30 } else { 2500 });
@@ -508,6 +539,7 @@ fn run(batches: &str, root: &str, entries: u32, flagbits: u32, out: &mut Out) {
                 let r = guarded(|| ring.get_next_cqe().map(|c| (c.0.user_data, c.0.res, c.0.flags)));
                 match r {
                     Ok(Some((u, res, fl))) => {
+                        arrival.entry(u).or_insert(submitted_at.elapsed().as_millis());
                         cqes.push(json!({"u":u,"res":res,"flags":fl}));
                         if cqes.len() > 4 * n + 16 {
                             break; // a ring that keeps returning completions: enough to be judged
@@ -548,6 +580,8 @@ fn run(batches: &str, root: &str, entries: u32, flagbits: u32, out: &mut Out) {
                 }
                 "statx" if res == 0 => stx_json(&keep.stx[built[k].stx_ix.unwrap()]),
                 "socket" if res >= 0 => sock_facts(res as i32),
+                "openat" if res >= 0 => fd_facts(res as i32),
+                "timeout" if res != ECANCELED && res != i64::MIN => json!({"fast": arrival.get(&subs[k]["u"].as_u64().unwrap_or(0)).map_or(false, |ms| *ms < 2000)}),
                 _ => Value::Null,
             };
             payload_a.push(p);
@@ -583,6 +617,13 @@ fn run(batches: &str, root: &str, entries: u32, flagbits: u32, out: &mut Out) {
                 payload_b.push(p);
             }
             directs.push(d);
+        }
+        // attributes of what was opened are taken at the end of the batch in both worlds (later operations of the
+        // batch may rename over / unlink / write the file)
+        for (k, op) in ops.iter().enumerate() {
+            if op["op"] == "openat" && res_b[k] >= 0 {
+                payload_b[k] = fd_facts(res_b[k] as i32);
+            }
         }
         b.apply(ops, &res_b, start_b);
         let (da, db) = (a.digest(), b.digest());
